@@ -895,10 +895,80 @@ func (p *Program) containerUses(fn *ssa.Function, v ssa.Value, base ssa.Value, d
 				}
 				continue
 			}
-			add(y, "escape", false)
+			// standard-library container helpers: what a hand-written loop over the container did
+			// before it was replaced by a slices/maps call
+			id := calleeID(cc)
+			call, plain := y.(*ssa.Call)
+			elemIsContainer := false
+			switch t := v.Type().Underlying().(type) {
+			case *types.Map:
+				elemIsContainer = isRefContainer(t.Elem())
+			case *types.Slice:
+				elemIsContainer = isRefContainer(t.Elem())
+			}
+			switch {
+			case plain && stdContainerReaders[id]:
+				// reads the container during the call and keeps nothing of it
+				add(y, "read-call", false)
+			case plain && stdContainerIterators[id] && len(cc.Args) == 1 && (id == "maps.Keys" || !elemIsContainer):
+				// a lazy iterator over the container: the container is read where the iterator is
+				// consumed; an iterator that is kept or handed on is an alias
+				out = append(out, seqUses(fn, call, base, derived)...)
+			default:
+				add(y, "escape", false)
+			}
 		default:
 			add(r, "escape", false)
 		}
+	}
+	return out
+}
+
+// stdContainerReaders: generic standard-library functions that only read their container arguments
+// while they run and return nothing that aliases them.
+var stdContainerReaders = map[string]bool{
+	"maps.Equal": true, "maps.EqualFunc": true,
+	"slices.Contains": true, "slices.ContainsFunc": true, "slices.Index": true, "slices.IndexFunc": true,
+	"slices.Equal": true, "slices.EqualFunc": true, "slices.Compare": true, "slices.CompareFunc": true,
+	"slices.Max": true, "slices.Min": true, "slices.IsSorted": true, "slices.BinarySearch": true,
+}
+
+// stdContainerIterators: functions returning an iter.Seq/Seq2 that reads the container lazily.
+var stdContainerIterators = map[string]bool{
+	"maps.Keys": true, "maps.Values": true, "maps.All": true,
+	"slices.All": true, "slices.Values": true, "slices.Backward": true,
+}
+
+// stdSeqConsumers: functions that run an iterator to its end before they return.
+var stdSeqConsumers = map[string]bool{
+	"slices.Collect": true, "slices.AppendSeq": true, "slices.Sorted": true, "slices.SortedFunc": true,
+	"slices.SortedStableFunc": true, "maps.Collect": true, "maps.Insert": true,
+}
+
+// seqUses: the accesses made through a lazy iterator over a guarded container. Each consumption — the
+// iterator called directly (range-over-func) or passed to a function that drains it — reads the
+// container at that instruction; every other use lets the iterator outlive the critical section.
+func seqUses(fn *ssa.Function, seq *ssa.Call, base ssa.Value, derived bool) []FieldAccess {
+	var out []FieldAccess
+	for _, r := range referrersOf(seq) {
+		if _, isDbg := r.(*ssa.DebugRef); isDbg {
+			continue
+		}
+		kind := "escape"
+		if c, ok := r.(*ssa.Call); ok {
+			cc := c.Common()
+			switch {
+			case !cc.IsInvoke() && cc.Value == ssa.Value(seq):
+				kind = "iterate"
+			case stdSeqConsumers[calleeID(cc)]:
+				kind = "iterate"
+			}
+		}
+		out = append(out, FieldAccess{Fn: fn, Instr: r, Kind: kind, Base: base, Derived: derived})
+	}
+	if len(out) == 0 {
+		// an iterator nobody consumes reads nothing
+		return nil
 	}
 	return out
 }
@@ -1298,4 +1368,175 @@ func partiallyWrittenLocalLoad(v ssa.Value) (*ssa.UnOp, *ssa.Alloc) {
 		}
 	}
 	return u, nil
+}
+
+// ---------------------------------------------------------------------------------------------
+// Edge-sensitive successor pruning (for results of merged helper bodies)
+
+// feasibleSuccs: the successors of b that control can take when b was entered from `from`. When b
+// ends in an `If` whose condition is decided by the value a Phi of b receives over that edge — a nil
+// test of an error Phi whose incoming value is a freshly built error or the nil constant, or a boolean
+// Phi whose incoming value is a constant or is known from the facts of the edge — only the matching
+// successor is returned. This is the shape `if err := helper(); err != nil {…}` takes once the
+// helper's body has been merged into its caller (phi(Errorf(..), nil) tested right after the merge):
+// the error edge never continues on the success branch. Everything else keeps both successors.
+func (p *Program) feasibleSuccs(from, b *ssa.BasicBlock) []*ssa.BasicBlock {
+	if from == nil || len(b.Instrs) == 0 || len(b.Succs) != 2 || b.Succs[0] == b.Succs[1] {
+		return b.Succs
+	}
+	iff, ok := b.Instrs[len(b.Instrs)-1].(*ssa.If)
+	if !ok {
+		return b.Succs
+	}
+	idx := -1
+	for i, pr := range b.Preds {
+		if pr == from {
+			if idx >= 0 {
+				return b.Succs // two edges from the same block: cannot tell them apart
+			}
+			idx = i
+		}
+	}
+	if idx < 0 {
+		return b.Succs
+	}
+	edgeVal := func(v ssa.Value) (ssa.Value, bool) {
+		ph, isPhi := stripConv(v).(*ssa.Phi)
+		if !isPhi || ph.Block() != b || idx >= len(ph.Edges) {
+			return nil, false
+		}
+		return ph.Edges[idx], true
+	}
+	f := p.mkFact(iff.Cond, true) // folds `!`, `== true` … into the polarity
+	res := unknownTri             // value of f.Cond
+	if x, trueMeansNonNil, isNilTest := errNilTest(f.Cond); isNilTest {
+		if e, isPhi := edgeVal(x); isPhi {
+			n := unknownTri // yes = nil
+			switch {
+			case isNilConst(stripConv(e)):
+				n = yesTri
+			case definitelyNonNil(e):
+				n = noTri
+			default:
+				n = p.nilnessFromFacts(p.FactsOnEdge(from, b), e)
+			}
+			switch n {
+			case yesTri:
+				res = noTri
+				if !trueMeansNonNil {
+					res = yesTri
+				}
+			case noTri:
+				res = yesTri
+				if !trueMeansNonNil {
+					res = noTri
+				}
+			}
+		}
+	} else if e, isPhi := edgeVal(f.Cond); isPhi {
+		if bv, isConst := constBool(e); isConst {
+			res = noTri
+			if bv {
+				res = yesTri
+			}
+		} else {
+			res = p.boolFromFacts(p.FactsOnEdge(from, b), e)
+		}
+	}
+	if res == unknownTri {
+		return b.Succs
+	}
+	taken := (res == yesTri) == f.Pol // does iff.Cond evaluate to true?
+	if taken {
+		return b.Succs[:1]
+	}
+	return b.Succs[1:2]
+}
+
+// mustFollowF: mustFollow that does not walk infeasible branch combinations (see feasibleSuccs): on
+// every feasible path from `site` to a normal return, an instruction satisfying match (or stop) is
+// executed after site. The analysis runs over CFG edges instead of blocks, so that a block entered
+// from different predecessors is judged per incoming edge.
+func (p *Program) mustFollowF(site ssa.Instruction, match func(ssa.Instruction) bool, stop func(ssa.Instruction) bool) bool {
+	fn := site.Parent()
+	sb := site.Block()
+	after := false
+	for _, in := range sb.Instrs {
+		if in == site {
+			after = true
+			continue
+		}
+		if !after {
+			continue
+		}
+		if match(in) || (stop != nil && stop(in)) {
+			return true
+		}
+		if _, ok := in.(*ssa.Return); ok {
+			return false
+		}
+	}
+	kind := map[*ssa.BasicBlock]int{} // 1 = match/stop/panic first, 2 = returns without match, 0 = passes through
+	for _, b := range fn.Blocks {
+		for _, in := range b.Instrs {
+			if match(in) || (stop != nil && stop(in)) {
+				kind[b] = 1
+				break
+			}
+			if _, ok := in.(*ssa.Return); ok {
+				kind[b] = 2
+				break
+			}
+		}
+		if kind[b] == 0 && isPanicBlock(b) {
+			kind[b] = 1
+		}
+	}
+	type edge struct{ from, to *ssa.BasicBlock }
+	holds := map[edge]bool{} // greatest fixpoint; absent = true
+	get := func(e edge) bool {
+		v, ok := holds[e]
+		return !ok || v
+	}
+	eval := func(e edge) bool {
+		switch kind[e.to] {
+		case 1:
+			return true
+		case 2:
+			return false
+		}
+		succs := p.feasibleSuccs(e.from, e.to)
+		if len(succs) == 0 {
+			return false
+		}
+		for _, s := range succs {
+			if !get(edge{e.to, s}) {
+				return false
+			}
+		}
+		return true
+	}
+	changed := true
+	for iter := 0; changed && iter < 1000; iter++ {
+		changed = false
+		for i := len(fn.Blocks) - 1; i >= 0; i-- {
+			b := fn.Blocks[i]
+			for _, pr := range b.Preds {
+				e := edge{pr, b}
+				if v := eval(e); v != get(e) {
+					holds[e] = v
+					changed = true
+				}
+			}
+		}
+	}
+	if len(sb.Succs) == 0 {
+		return isPanicBlock(sb)
+	}
+	for _, s := range sb.Succs {
+		if !get(edge{sb, s}) {
+			return false
+		}
+	}
+	return true
 }
